@@ -468,3 +468,40 @@ pub fn eval(q: &mut Query<'_>, node: Node<'_, Syntax, u32, u32>, bias: Bias) -> 
         kind => Err(Error::new(*node.span(), Unexpected { kind })),
     }
 }
+
+/// Entry points for external verification tooling, only compiled with
+/// `--cfg anything_verif`. Not part of the public API.
+#[cfg(anything_verif)]
+pub mod verif_hooks {
+    use super::*;
+
+    /// Apply one of the binary operators (`add`, `sub`, `mul`, `div`, `pow`).
+    pub fn binary(op: &str, a: Numeric, b: Numeric) -> Option<Result<Numeric>> {
+        let span = Span::new(0, 0);
+
+        Some(match op {
+            "add" => add(span, a, b),
+            "sub" => sub(span, a, b),
+            "mul" => mul(span, a, b),
+            "div" => div(span, a, b),
+            "pow" => pow(span, a, b),
+            _ => return None,
+        })
+    }
+
+    /// Convert `value` from `source` into `target`, `None` if the conversion
+    /// is not possible.
+    pub fn factor(target: &Compound, source: &Compound, value: &mut Rational) -> Option<bool> {
+        target.factor(source, value).ok()
+    }
+
+    /// Call a built-in function by name.
+    pub fn call(name: &str, arguments: Vec<Numeric>) -> Option<Result<Numeric>> {
+        builtin(name).map(|f| f(Span::new(0, 0), arguments))
+    }
+
+    /// Parse a single unit word into remainder, prefix and unit.
+    pub fn unit_word(word: &str) -> Option<(&str, i32, crate::Unit)> {
+        crate::generated::unit::parse(word)
+    }
+}
